@@ -1,0 +1,8 @@
+//go:build !verif
+// +build !verif
+
+package wasp
+
+func verifPublishQueued()         {}
+func verifPublishProcessed()      {}
+func verifSessionEnded(id string) {}
